@@ -136,9 +136,50 @@ def check(prop, tier, repo, seed):
             for f in res.gen.fns[:3]:
                 samples.append({"obligation": f["obligations"], "fn": f["qual"], "at": "%s:%d" % (f["file"], f["line"]), "result": "verified"})
 
-    # ---------------- bounded native checks (stand-ins for functions outside the verifier's reach; never counted as proved)
     bounded = []
     native_fail = []
+    # ---------------- Kani harness families (complete per concrete shape / bounded in lengths; see kani/README.md)
+    kani_results = []
+    if cfg.get("kani"):
+        try:
+            import kani_run as K
+            jobs = int(os.environ.get("VERIF_JOBS", "16"))
+            kani_results = K.run(cfg["kani"], repo=repo, tier=tier, jobs=jobs, timeout_s=int(cfg.get("kani_timeout", 900)))
+        except Exception as e:
+            undecided.append("kani families could not run: %s" % str(e)[-400:])
+        fams = {}
+        for r in kani_results:
+            fams.setdefault(r["family"], []).append(r)
+            obligations += 1
+            if r["status"] == "ok":
+                discharged += 1
+            elif r["status"] == "fail":
+                f = {"message": "kani: " + "; ".join(c.get("description", "") for c in r.get("failed_checks", [])[:3]),
+                     "fn": r["harness"], "file": (r.get("failed_checks") or [{}])[0].get("location", "cfdp-core/src/pdu"), "line": 0,
+                     "obligations": ["O-%s-%s" % (prop, r["family"])], "mine": ["O-%s-%s" % (prop, r["harness"])],
+                     "rendered": json.dumps({k: r.get(k) for k in ("harness", "failed_checks", "input_hex", "native_replay", "log")})[:4000],
+                     "gen_line": 0, "harness": r["harness"], "kind": "kani", "input_hex": r.get("input_hex"), "native_replay": r.get("native_replay")}
+                k = is_known(known, prop, f)
+                if k:
+                    known_hits.append((k, f))
+                else:
+                    violations.append(f)
+                    native_fail.append({"program": "pdu_replay", "kani": True, "harness": r["harness"], "input_hex": r.get("input_hex"),
+                                        "native_replay": r.get("native_replay")})
+                    print("FAILING INPUT (kani harness %s, replayed natively: %s): %s" % (r["harness"], (r.get("native_replay") or {}).get("confirmed"), r.get("input_hex")))
+            else:
+                undecided.append("kani harness %s: %s" % (r["harness"], r.get("reason", "undecided")))
+        for fam, rs in fams.items():
+            kinds = {r.get("kind") for r in rs}
+            bounded.append({"family": fam, "kind": "/".join(sorted(k for k in kinds if k)), "bound": rs[0].get("bound", ""), "harnesses": len(rs),
+                            "ok": sum(1 for r in rs if r["status"] == "ok"), "cbmc_checks": sum(int(r.get("checks") or 0) for r in rs),
+                            "time_s": round(sum(float(r.get("time_s") or 0) for r in rs), 1)})
+        for r in kani_results[:4]:
+            samples.append({"harness": r["harness"], "family": r["family"], "kind": r.get("kind"), "status": r["status"], "cbmc_checks": r.get("checks"), "time_s": r.get("time_s")})
+        checker_cmds.append("cargo kani --harness <each of %d harnesses> (kani_run.py, families %s)" % (len(kani_results), ",".join(cfg["kani"])))
+        trusted.add("Kani 0.68 / CBMC 6.11; stub core::str::from_utf8 -> one-step-per-octet DFA (cross-checked natively by `pdu_replay selftest-utf8`); see kani/README.md 'Stubs and assumptions'")
+
+    # ---------------- bounded native checks (stand-ins for functions outside the verifier's reach; never counted as proved)
     for nat in cfg.get("native", []):
         import search as S
         args = nat["thorough"] if tier == "thorough" else nat["quick"]
@@ -223,7 +264,8 @@ def check(prop, tier, repo, seed):
         for u in undecided:
             print("UNDECIDED %s: %s" % (prop, u))
     else:
-        print("OK %s: %d/%d obligations discharged (%s), %.1fs" % (prop, discharged, obligations, ", ".join("%s %d fns" % (u.unit, u.verified) for u in units), wall))
+        print("OK %s: %d/%d obligations discharged (%s), %.1fs" % (prop, discharged, obligations,
+              ", ".join(["%s %d fns" % (u.unit, u.verified) for u in units] + (["kani %d harnesses" % len(kani_results)] if kani_results else [])), wall))
     for u in unstable:
         print("WARNING unstable proof: %s" % u)
     for n in notes:
@@ -240,7 +282,9 @@ def check(prop, tier, repo, seed):
         "trusted_base": sorted(trusted),
         "functions_under_contract": functions,
         "backends": [{"name": "verus 0.2026.09.13 + z3", "units": [u.unit for u in units], "smt_ms": smt_ms,
-                      "functions_verified": sum(u.verified for u in units)}],
+                      "functions_verified": sum(u.verified for u in units)}] +
+                    ([{"name": "kani 0.68 + cbmc 6.11", "harnesses": len(kani_results), "ok": sum(1 for r in kani_results if r["status"] == "ok"),
+                       "cpu_s": round(sum(float(r.get("time_s") or 0) for r in kani_results), 1)}] if kani_results else []),
         "rewrites_applied": rules,
         "samples": samples or [{"note": "no sample: run did not complete", "undecided": undecided[:3]}],
         "canary": {u.unit: u.canary_ok for u in units},
